@@ -66,6 +66,9 @@ type RunFault struct {
 	KillAfterMsgs int   `json:"kill_after_msgs,omitempty"`
 	CloseErr      bool  `json:"close_err,omitempty"`
 	SchemaDrop    bool  `json:"schema_drop,omitempty"` // the deployed plugin lacks the steps (schema mismatch at start)
+	// Silent: the deployed plugin never says anything (a container that is up but stuck before its
+	// first message); whatever the engine reads from it blocks until the connection is closed.
+	Silent bool `json:"silent,omitempty"`
 }
 
 // Plan is the fault plan of a run that is not expressed in the workflow text.
@@ -306,6 +309,7 @@ func (c *connector) Deploy(ctx context.Context, src string) (deployer.Plugin, er
 		conn.killOnFail = rf.KillAtByte > 0 || rf.KillAfterMsgs > 0
 		conn.closeErr = rf.CloseErr
 		conn.schemaDrop = rf.SchemaDrop
+		conn.silent = rf.Silent
 	}
 	conn.start()
 	simrt.EnvPoint("env:deploy-ok", false, 0)
@@ -450,6 +454,7 @@ type Conn struct {
 	closeErr   bool
 	killOnFail bool
 	schemaDrop bool
+	silent     bool
 	closeOnce  sync.Once
 	// sessionOver: the ATP server session is ending; a plugin step that errors or panics now would
 	// crash the (real) plugin SDK, i.e. this process, so scripted misbehaviour is suppressed then.
@@ -528,6 +533,19 @@ func (c *Conn) start() {
 			c.w.Fired("conn_eof_mid_stream")
 			c.Kill("scripted EOF in plugin->engine stream")
 		}
+	}
+	if c.silent {
+		c.w.Fired("plugin_silent")
+		go func() {
+			defer close(c.done)
+			<-c.ctx.Done() // closed (or killed) by the engine
+			c.d.Exited.Store(true)
+			c.w.Log(Event{Kind: EvServerExit, G: fmt.Sprintf("server/%d", c.d.N), Src: c.d.Src, Dep: c.d.N, Probe: c.d.Probe})
+			if s := c.w.Sim; s != nil {
+				s.Notify()
+			}
+		}()
+		return
 	}
 	sch := c.w.pluginSchema(c)
 	go func() {
